@@ -51,8 +51,13 @@ pub struct Outcome {
     pub findings: Vec<Finding>,
     /// named counters accumulated into the evidence
     pub counters: BTreeMap<String, u64>,
+    /// oracle / environment failures: never a verdict (exit 2)
+    pub machinery: Vec<String>,
 }
 impl Outcome {
+    pub fn machinery_error(&mut self, msg: impl Into<String>) {
+        self.machinery.push(msg.into());
+    }
     pub fn new() -> Self {
         Outcome {
             evals: 0,
@@ -299,6 +304,7 @@ pub fn run_property(p: &dyn Prop, tier: Tier, seed: u64) -> RunResult {
     let mut first: BTreeMap<String, (usize, Finding)> = BTreeMap::new();
     let mut finding_counts: BTreeMap<String, u64> = BTreeMap::new();
     let mut n_exec = 0usize;
+    let mut case_machinery: Vec<String> = vec![];
     for (i, r) in results.iter().enumerate() {
         let Some(o) = r else { continue };
         n_exec += 1;
@@ -325,12 +331,17 @@ pub fn run_property(p: &dyn Prop, tier: Tier, seed: u64) -> RunResult {
             *finding_counts.entry(f.key.clone()).or_insert(0) += 1;
             first.entry(f.key.clone()).or_insert((i, f.clone()));
         }
+        for m in &o.machinery {
+            if case_machinery.len() < 5 {
+                case_machinery.push(format!("case {i}: {m}"));
+            }
+        }
     }
     let exhaustive = !capped.load(Ordering::Relaxed) && n_exec == total_cases;
 
     // determinism slice: re-run every 64th (cheap) case and compare digests
     let mut rechecked = 0u64;
-    let mut machinery_errors: Vec<String> = vec![];
+    let mut machinery_errors: Vec<String> = case_machinery.clone();
     let recheck_idx: Vec<usize> = (0..total_cases)
         .step_by(64)
         .filter(|i| results[*i].as_ref().map(|o| o.evals <= 2000).unwrap_or(false))
@@ -469,13 +480,17 @@ pub fn run_property(p: &dyn Prop, tier: Tier, seed: u64) -> RunResult {
         return RunResult { exit: 2 };
     }
     for l in &lines {
-        println!("{l}");
+        if case_machinery.is_empty() {
+            println!("{l}");
+        } else {
+            eprintln!("(not reported, the oracle was unreliable in this run) {l}");
+        }
     }
     eprintln!(
         "[{id}] cases={n_exec}/{total_cases} evals={evals} nontrivial={nontrivial} classes={} violations={violations} known={known_hits} wall={wall:.1}s exhaustive={exhaustive}",
         classes.len()
     );
-    if violations > 0 {
+    if violations > 0 && case_machinery.is_empty() {
         return RunResult { exit: 1 };
     }
     if !machinery_errors.is_empty() {
